@@ -119,7 +119,7 @@ type c30World struct {
 	// the poll's own first hash call (forkChanged) saw a hash that differs from the stored tip
 	pollHashCalls int
 	pollForkSeen  bool
-	queries   int
+	queries       int
 }
 
 func (w *c30World) FetchEndpoint() lavasession.RPCProviderEndpoint {
